@@ -243,6 +243,13 @@ def known_key(outcome, c0, c1):
         pre = _line_prefix().strip()
         if WHERE == "contributor" and pre and value.endswith(pre[::-1]):
             return "written-header-reads-back-differently"
+        if WHERE == "holder":
+            for p in ex._COPYRIGHT_PATTERNS:
+                m2 = p.search(value)
+                if m2 is not None and m2.start() > 0:
+                    # the holder itself contains a copyright marker ('Jane© Doe'): make_copyright_line keeps it
+                    # verbatim as "already a notice", the reader starts the notice at the marker ('© Doe')
+                    return "holder-contains-copyright-marker"
         if WHERE == "contributor":
             for p in ex._COPYRIGHT_PATTERNS:
                 if p.search(value) is not None:
